@@ -67,10 +67,22 @@ impl C17 {
     pub fn with_bound(n: u32) -> C17 {
         Self::with_n(Tier::Quick, n)
     }
+    fn subset_letters(&self) -> u32 {
+        self.tier.pick(10, 12)
+    }
     fn with_n(tier: Tier, n: u32) -> C17 {
         let seqs = (0..seqs_len(4, 0, n)).map(|i| chars(&string_at(&ALPHA, 0, n, i))).collect();
         C17 { tier, n, seqs, long: long_seqs(), menu: order_menu() }
     }
+}
+
+/// The subset of the first `k` lower-case letters selected by the bits of `mask`, spelt ascending or descending.
+pub fn subset_word(mask: u64, k: u32, descending: bool) -> Vec<char> {
+    let mut w: Vec<char> = (0..k).filter(|i| mask >> i & 1 == 1).map(|i| (b'a' + i as u8) as char).collect();
+    if descending {
+        w.reverse();
+    }
+    w
 }
 
 thread_local! {
@@ -162,6 +174,7 @@ impl Prop for C17 {
             Dom::new(format!("pairs:seqs<={}over{{a,b,c,d}}", self.n), self.seqs.len() as u64, 16).note("case = first sequence; inner loop = every second sequence; one reused instance per worker thread"),
             Dom::new("long-families", self.long.len() as u64, 4).note("lengths 0,1,19..22,39..41,64 x 5 shapes (heavy repetition), all ordered pairs"),
             Dom::new(format!("call-orders<={}", self.tier.pick(3, 4)), seqs_len(m, 1, self.tier.pick(3, 4)), 400).note("every sequence of <= 3 similarity calls on ONE fresh instance from a 19-pair menu (long-then-short included)"),
+            Dom::new(format!("subset-pairs:{}letters", self.subset_letters()), 1u64 << self.subset_letters(), 8).note("case = first subset of the first k letters of the alphabet (spelt ascending); inner loop = every second subset (spelt descending): all size ratios, sparse against dense, misses next to hits"),
         ]
     }
     fn run(&self, dom: usize, idx: u64, cx: &mut Cx) {
@@ -189,6 +202,19 @@ impl Prop for C17 {
                     verdict(cx, r, &self.long[idx as usize], s, "long");
                 }
             }
+            3 => {
+                let k = self.subset_letters();
+                let a = subset_word(idx, k, false);
+                for j in 0..(1u64 << k) {
+                    let b = subset_word(j, k, true);
+                    cx.eval();
+                    cx.state();
+                    cx.tr(1);
+                    cx.mark(|| format!("similarity({:?},{:?})", a, b));
+                    let r = SHARED.with(|sh| guard(|| laws(sh, &a, &b)));
+                    verdict(cx, r, &a.iter().collect::<String>(), &b.iter().collect::<String>(), "subset-pair");
+                }
+            }
             _ => {
                 let m = self.menu.len() as u64;
                 let seq = seq_at(m, 1, self.tier.pick(3, 4), idx);
@@ -213,7 +239,7 @@ impl Prop for C17 {
         }
     }
     fn rule(&self) -> String {
-        "(i) all ordered pairs of sequences up to the bound over {a,b,c,d} (incl. empty) on one reused instance per worker: equals |A∩B|/|A∪B| computed with BTreeSet, in [0,1], symmetric, unchanged by reversing one argument and doubling the other, equal to a fresh instance, rel_dist = 1 - similarity; (ii) all pairs of long repetitive families around the buffer capacity 20; (iii) every sequence of <= 3 calls on one instance from a 19-pair menu. Non-trivial = similarity strictly between 0 and 1.".into()
+        "(i) all ordered pairs of sequences up to the bound over {a,b,c,d} (incl. empty) on one reused instance per worker: equals |A∩B|/|A∪B| computed with BTreeSet, in [0,1], symmetric, unchanged by reversing one argument and doubling the other, equal to a fresh instance, rel_dist = 1 - similarity; (ii) all pairs of long repetitive families around the buffer capacity 20; (iii) every sequence of <= 3 calls on one instance from a 19-pair menu; (iv) every ordered pair of subsets of the first 10 (thorough: 12) letters, so every size ratio up to 10:1 and every pattern of present / absent neighbours. Non-trivial = similarity strictly between 0 and 1.".into()
     }
     fn assumptions(&self) -> Vec<String> {
         vec![
